@@ -46,6 +46,67 @@ def slot_consts(P):
     return env
 
 
+def check_path_as_requested(P, R, rid):
+    """the path the tree lookup gets is the request path: where the framework rewrites PATH_INFO (mounting by host name) it only puts a prefix in front of it -
+    nothing that normalises a path (dot segments collapsed, empty segments dropped) stands between the request and the router"""
+    w = P.func('ombott.ombott:Ombott.wsgi')
+    for st in walk_shallow(w.node):
+        if isinstance(st, ast.Assign) and any(isinstance(t, ast.Subscript) and is_const(t.slice, 'PATH_INFO') for t in st.targets):
+            v = st.value
+            parts = []
+
+            def flat(e):
+                if isinstance(e, ast.BinOp) and isinstance(e.op, ast.Add):
+                    flat(e.left)
+                    flat(e.right)
+                else:
+                    parts.append(e)
+            flat(v)
+            ok = bool(parts) and isinstance(parts[-1], ast.Subscript) and is_const(parts[-1].slice, 'PATH_INFO') and \
+                not any(isinstance(x, ast.Call) for p_ in parts for x in ast.walk(p_))
+            calls = [x for x in ast.walk(v) if isinstance(x, ast.Call)]
+            R.ob(rid, w, st, ok, text=f'`{short(st)}`: a prefix in front of the request path, the path itself untouched', detail='' if ok else
+                 f'`{short(st)}` passes the request path through `{short(calls[0]) if calls else short(v)}`: a function that normalises paths collapses `.` / `..` and drops '
+                 f'empty segments, so the router does not see the path that was requested - `/item/..` no longer reaches `/item/<name>` with name=\'..\'',
+                 why='the router selects exactly the route a rule-by-rule matcher selects for the request path', key_extra='path-as-requested')
+
+
+def check_add_never_removes(P, R, rid, why):
+    """registering a rule never takes anything out of the tree: a rejected registration has mounted nothing (the tree refuses before it mounts), and what a
+    clean-up after the refusal removes is the rule that was already there"""
+    f = P.func(f'{RR}:RadiRouter._add')
+    rem = [c for c in walk_shallow(f.node) if isinstance(c, ast.Call) and call_attr(c) in ('remove', '_remove', 'pop', '__delitem__') and
+           (dotted(c.func.value) or '').startswith('self.radidict')]
+    rem += [st for st in walk_shallow(f.node) if isinstance(st, ast.Delete) and any('self.routes' in src(t) or 'self.radidict' in src(t) for t in st.targets)]
+    R.ob(rid, f, rem[0] if rem else f.node, not rem, text='_add never removes from the tree', detail='' if not rem else
+         f'`{short(rem[0])}` in the registration path: the pattern of the refused rule is the pattern of the rule that made it clash, so the clean-up deletes the rule '
+         f'that was registered before - after a refused add of `/n/<name>` the path `/n/5` of `/n/<i:int>` answers 404',
+         why=why, key_extra='add-removes')
+
+
+def check_parser_literal_classes(P, R, rid):
+    """the rule parser finds the end of literal text in two places (a literal part, the literal tail behind a `path` wildcard): both stop at the same set of
+    wildcard-opening characters"""
+    pf = [f for f in P.all_funcs() if f.module.name == 'ombott.router.parser' and not isinstance(f.node, ast.Lambda)]
+    found = []
+    for f in pf:
+        for x in walk_shallow(f.node):
+            if isinstance(x, ast.JoinedStr) and any(isinstance(v, ast.Constant) and isinstance(v.value, str) and v.value.endswith('[^') for v in x.values):
+                for i, v in enumerate(x.values):
+                    if isinstance(v, ast.FormattedValue) and i > 0 and isinstance(x.values[i - 1], ast.Constant) and str(x.values[i - 1].value).endswith('[^'):
+                        ns = f.cfg.node_of_stmt(x)
+                        found.append((f, x, src(T.expand(f, v.value, ns[0])) if ns else src(v.value)))
+    found = [x for x in found if 'param_delimiters' in x[2] and 'param_delimiters_map' not in x[2]]
+    if len(found) < 2:
+        return
+    kinds = {k for (_f, _x, k) in found}
+    ok = len(kinds) == 1
+    R.ob(rid, found[0][0], found[0][1], ok, text=f'{len(found)} scans for the end of literal text in the rule parser stop at one set of characters', detail='' if ok else
+         f'the scans stop at different character sets ({sorted(kinds)}): one wildcard spelling (`:name`) ends a literal part but not the literal tail of a `path` wildcard, '
+         f'so `/files/<p:path>/rev/:rev` expects the text `:rev` in the request while `<rev>` in the same place works',
+         why='the router selects exactly the route a rule-by-rule matcher selects, whatever spelling a wildcard has', key_extra='parser-classes')
+
+
 def slot_name(sub):
     """for `node[DATA]` return 'DATA'"""
     if isinstance(sub, ast.Subscript) and isinstance(sub.slice, ast.Name):
@@ -124,6 +185,21 @@ def check_lookback(P, R, rid, what=('params', 'hooks')):
                  f'the record stores the live `{name}` list itself: what the abandoned branch appended is still there when the search '
                  f'falls back to the wildcard sibling',
                  why='the retried branch must see the parameters / hooks as they were at the branching point', key_extra=f'{i}:{role}')
+    # a failed branch falls back to the pending alternative whenever there is one: nothing but the emptiness of the record stack decides it (the record restores
+    # the cursor, so the state of the abandoned branch says nothing about what the alternative can match)
+    lb = roles['look_back']
+    pops = [c for c in walk_shallow(f.node) if isinstance(c, ast.Call) and call_attr(c) == 'pop' and isinstance(c.func.value, ast.Name) and c.func.value.id == lb]
+    for c in pops:
+        t = enclosing(c, ast.If)
+        while t is not None and lb not in names_loaded(t.test):
+            t = enclosing(t, ast.If)
+        if t is None:
+            continue
+        others = sorted(names_loaded(t.test) - {lb, 'len'})
+        R.ob(rid, f, t.test, not others, text=f'`{short(t.test)}`: the pending alternative is tried whenever there is one', detail='' if not others else
+             f'whether the look-back record is popped also depends on {others}: these describe the branch that just failed, the record restores them - with the '
+             f'condition false a pending wildcard alternative is skipped and a path its rule matches is answered 404',
+             why='every path a registered rule matches is routed to it', key_extra='lookback-pop-guard')
     return f, pushes
 
 
@@ -571,6 +647,9 @@ def check(P, R):
 
     # ---- h: the route dispatched is the one the tree lookup selected
     R.rule('C01.h', 'the dispatched route comes from the tree lookup only', floor=1)
+    check_path_as_requested(P, R, 'C01.h')
+    check_add_never_removes(P, R, 'C01.h', 'the router selects exactly the route a rule-by-rule matcher selects from the registered rules')
+    check_parser_literal_classes(P, R, 'C01.g')
     # ... and the lookup recognises a stored route by its truth value (`if pnode[DATA]`): a route object is never falsy
     from . import c02 as _c02
     _c02.check_truthy_classes(P, R, 'C01.h', 'the router selects exactly the route a rule-by-rule matcher selects: a registered literal rule wins over its wildcard sibling')
